@@ -9,6 +9,7 @@ import Frost.Proofs.Wire
 import Frost.Proofs.WireRef
 import Frost.Proofs.Ed25519Canon
 import Frost.Model.Json
+import Frost.Model.Taproot
 
 set_option linter.unusedSectionVars false
 
@@ -327,6 +328,48 @@ end Frost.C12
 
 namespace Frost.C12
 open Frost
+
+/-! ### the Taproot signature: 64 bytes, x-only `R` -/
+
+section taproot
+variable {F E : Type}
+variable [Add F] [Mul F] [Sub F] [Neg F] [Zero F] [One F] [Inv F] [DecidableEq F]
+variable [Add E] [Sub E] [Neg E] [Zero E] [SMul F E] [DecidableEq E]
+
+/-- **any length other than 64 is rejected** (in particular the 65 bytes of the default
+    `element ‖ scalar` layout) -/
+theorem taproot_signature_wrong_length (B : Base F E) (P : TrParams F E) (bytes : Bytes)
+    (h : bytes.length ≠ 64) :
+    (Suite.taproot B P).deserializeSignature bytes = .error .MalformedSignature := by
+  simp [Suite.taproot, h]
+
+/-- **an accepted 64-byte string is the encoding of the decoded signature** (given canonical
+    element and scalar codecs of 33 and 32 bytes: `secp256k1_canon`) -/
+theorem taproot_signature_canonical (B : Base F E) (P : TrParams F E) (C : Wire.BaseCanon B)
+    (hE : B.elemLen = 33) (hS : B.scalarLen = 32) (bytes : Bytes) (sg : Signature F E)
+    (h : (Suite.taproot B P).deserializeSignature bytes = .ok sg) :
+    (Suite.taproot B P).serializeSignature sg = .ok bytes := by
+  simp only [Suite.taproot] at h ⊢
+  split at h
+  · cases h
+  · rename_i hlen
+    have hlen' : bytes.length = 64 := by simpa using hlen
+    cases hR : B.decElem ((2 : UInt8) :: bytes.take 32) with
+    | error e => simp [hR] at h
+    | ok R =>
+      simp only [hR] at h
+      cases hz : B.decScalar (bytes.drop 32) with
+      | none => simp [hz] at h
+      | some z =>
+        simp only [hz, Outcome.ok.injEq] at h
+        subst h
+        have e1 := C.elem ((2 : UInt8) :: bytes.take 32) R
+          (by simp [hE, List.length_take, hlen']) hR
+        have e2 := C.scalar (bytes.drop 32) z (by simp [hS, List.length_drop, hlen']) hz
+        simp only [Base.encElemO, e1, Outcome.ofOption, e2, List.drop_one, List.tail_cons,
+          List.take_append_drop]
+
+end taproot
 
 theorem json_keyPackage_none_iff {F E : Type} (S : Suite F E) (k : KeyPackage F E) :
     Json.keyPackage S k = none ↔ S.encElem k.vshare = none ∨ S.encElem k.vk = none := by
